@@ -15,7 +15,8 @@ CLAUSES = {
 RULE = ("seeded class-based generators: SUS weight vectors (pools with ties/zeros/1e-12..1e12 magnitudes, sums making "
         "tot/k inexact, adversarial constant-offset generators), k in 1..500 and 1-3-D shapes; tiled choice with distinct "
         "and repeated option sets; axis shuffles of 1-4-D arrays over every axis subset; outcross shuffles of cross tables "
-        "up to 12x4 with heavy repeats; rng = Generator | RandomState | library global.  A case is non-trivial when it has "
+        "up to 12x4 with heavy repeats in every integer index dtype and memory layout (C, Fortran, strided views); tiled "
+        "choice with option counts around 2^7, 2^8, 2^15, 2^16; rng = Generator | RandomState | library global.  A case is non-trivial when it has "
         ">1 element/option and (for outcross) at least one repeat; distinct = digest of the full call arguments.")
 ASSUME = ["expected counts computed in exact rational arithmetic from the float weights as passed",
           "numpy.random.Generator/RandomState shuffle/choice/uniform are correct (trusted base)"]
@@ -111,10 +112,21 @@ def case_tiled(ctx, c):
     a = g.integers(0, max(2, n // 2), n) if rep else g.permutation(50)[:n]
     if g.random() < 0.2:
         a = numpy.array(["o%d" % v for v in a], dtype=object)
+    elif g.random() < 0.3:     # option arrays of other numeric dtypes (values < 50 fit all of them)
+        a = a.astype(str(g.choice(["int8", "uint8", "int16", "uint16", "int32", "uint32", "float32", "float64"])))
     k = int(g.choice(KS[:10])) if g.random() < 0.5 else int(g.integers(1, 4 * n + 3))
+    big = c % 40 == 11
+    if big:      # option sets around the limits of the narrow integer types; options are their own (large) labels
+        n = int(g.choice([127, 128, 129, 255, 256, 257, 32767, 32768, 32769, 40000, 65535, 65536, 70000]))
+        a = g.permutation(n) + (0 if g.random() < 0.5 else 100000)
+        k = int(g.choice([n - 1, n, n + 1, 2 * n, 2 * n + 3]))
+        rep = False
     size = k if g.random() < 0.5 else ((k,) if k % 2 else (2, k // 2))
     rname, rng = mkrng(g, c)
     icls = ("repeated-options" if rep else "distinct-options") + ("/k<n" if k < n else "/k>=n")
+    if big:
+        icls += "/option count near an integer-type limit"
+        ctx.sumnote("tiled: option counts near integer-type limits")
     coords = [c, "tiled"]
     ctx.case("tiled:" + icls, a, size, rname, trivial=n < 2)
     ctx.sample({"fn": "tiled_choice", "a": a.tolist(), "size": size, "rng": rname}) if c % 97 == 0 else None
@@ -139,10 +151,17 @@ def case_tiled_addon(ctx, c):
     from pybrops.opt.algo.pymoo_addon import tiled_choice as tc
     g = ctx.rng("tiled-addon", c)
     a = int(g.integers(1, 12)); k = int(g.integers(0, 4 * a + 3))
+    big = c % 25 == 7
+    if big:      # option counts around the limits of the 8-, 16-bit (signed and unsigned) integer types: genome-sized operators
+        a = int(g.choice([127, 128, 129, 255, 256, 257, 300, 32767, 32768, 32769, 40000, 65535, 65536, 65537, 70000]))
+        k = int(g.choice([a - 1, a, a + 1, 2 * a, 2 * a + 3, int(2.5 * a)]))
     rname, rng = mkrng(g, c)
     if rname == "global":
         rng = None
     icls = "operator-module sibling" + ("/k<n" if k < a else "/k>=n") + ("/multiple of n" if k % a == 0 else "")
+    if big:
+        icls += "/option count near an integer-type limit"
+        ctx.sumnote("tiled (operator module): option counts near integer-type limits")
     coords = [c, "tiled-addon"]
     ctx.case("tiled-addon:" + icls, a, k, rname, trivial=a < 2 or k == 0)
     ok, out = guarded(ctx, "tiled", icls, coords, lambda: tc(a, k, random_state=rng))
@@ -192,16 +211,35 @@ def case_outcross(ctx, c):
     else:              # few individuals, many crosses: repeats cannot all be removed, plateaus of equal-score exchanges
         x = g.integers(0, int(g.integers(2, 5)), ncross * npar)
     x = numpy.sort(x) if g.random() < 0.5 else x
-    x = x.reshape(ncross, npar).astype("int64")
+    # every integer index dtype and every memory layout is a cross table: the shuffle works in place, so a table that is
+    # converted or flattened into a private copy is returned untouched
+    dt = "int64" if g.random() < 0.5 else str(g.choice(["int32", "int16", "int8", "uint8", "uint16", "uint32", "uint64", "intp"]))
+    x = x.reshape(ncross, npar).astype(dt)
+    lay = int(g.integers(0, 10))
+    layout = "C-contiguous"
+    if lay == 7:
+        x = numpy.asfortranarray(x); layout = "Fortran order"
+    elif lay == 8:      # columns of a wider table
+        wide = numpy.full((ncross, npar + 2), 99, dtype=dt); wide[:, 1:npar + 1] = x; x = wide[:, 1:npar + 1]; layout = "strided view"
+    elif lay == 9:      # every other row of a longer table
+        tall = numpy.full((2 * ncross, npar), 99, dtype=dt); tall[::2] = x; x = tall[::2]; layout = "strided view"
     rname, rng = mkrng(g, c)
     d0 = O.dupcount(x)
     icls = ["tiled", "heavy-repeats", "dominant", "sparse", "few-individuals"][mode] + ("/selfs-present" if d0 else "/no-selfs")
+    if dt != "int64":
+        icls += "/narrow or unsigned index dtype"
+    if layout != "C-contiguous":
+        icls += "/" + layout
+    ctx.sumnote("outcross tables: %s" % layout)
+    ctx.sumnote("outcross tables: dtype %s" % dt)
     coords = [c, "outcross"]
     ctx.case("outcross:" + icls, x, rname, trivial=d0 == 0)
     ctx.sample({"fn": "outcross_shuffle", "xconfig": x.tolist(), "rng": rname}) if c % 97 == 0 else None
     before = x.copy()
     ok, _ = guarded(ctx, "outcross", icls, coords, lambda: outcross_shuffle(x, rng))
     if ok:
+        ctx.check("C17.outcross.multiset", x.dtype == before.dtype, "outcross_shuffle", "table keeps its dtype", icls,
+                  witness={"before": str(before.dtype), "after": str(x.dtype)}, coords=coords)
         d0, d1 = O.check_outcross(ctx, before, x, icls, coords)
         ctx.sumnote("outcross repeats removed", d0 - d1)
 
